@@ -30,7 +30,9 @@ BUDGET_S = {"quick": 34, "thorough": 400}
 EXHAUSTIVE = {"quick": False, "thorough": False}
 
 RULE = (
-    "herm: class specification (frozen/slots/cache_hash/exception base/pre-init with and without arguments/post-init/"
+    "herm: class specification (frozen -- by argument or by a frozen attrs base --/slots/cache_hash/exception class over the "
+    "roots Exception, BaseException, KeyboardInterrupt, SystemExit, GeneratorExit, ValueError, directly or through a plain "
+    "intermediate class (harness-only: the model only knows isExc)/pre-init with and without arguments/post-init/"
     "class on_setattr/which of repr, eq, hash, __init__ vs __attrs_init__ are generated) x 1-6 fields drawn from name sets "
     "built around the helper naming scheme (x with validator_x/factory_x/converter_x/attribute_x/key_x/repr_x/x_repr/_x_key, names equal "
     "to fixed helper names and to builtins, names that made the old _n_key / n_repr helpers coincide with an __attr_..._m name), each field "
@@ -119,6 +121,9 @@ COLLIDE_REPR = [("__attr_factory_foo", "foo_repr", "factory"), ("__attr_validato
 ALIAS_POOL = ["_setattr", "_inst_dict", "_config", "NOTHING", "attr_dict", "_cached_setattr_get", "BaseException",
               "p", "q_", "_r", "hash", "validator_x", "x_repr", "_x_key", "other", "__attr_factory_x", "id", "object", "result"]
 APIS = ["attr.s", "attr.s", "define", "make_class"]
+# harness-only class shapes that decide WHICH helper names the scripts load / which injection guards run
+EXC_ROOTS = ["Exception", "BaseException", "KeyboardInterrupt", "SystemExit", "GeneratorExit", "ValueError",
+             "mid:KeyboardInterrupt", "mid:Exception", "mid:BaseException"]
 
 
 def derived_alias(name):
@@ -150,6 +155,11 @@ def normalise(case):
     if c["isExc"]:
         c["cacheHash"] = False
         c["slots"] = False if cfg["api"] == "make_class" else c["slots"]
+        cfg.setdefault("excRoot", "Exception")
+    else:
+        cfg.pop("excRoot", None)
+    if not c["frozen"]:
+        cfg.pop("frozenVia", None)
     if not (c["genHash"] and c["genInit"]):
         c["cacheHash"] = False
     if not c["preInit"]:
@@ -214,7 +224,7 @@ def rand_cls(rng):
     c["slots"] = rng.random() < 0.35
     c["genHash"] = rng.random() < 0.55
     c["cacheHash"] = c["genHash"] and rng.random() < 0.4
-    c["isExc"] = rng.random() < 0.15
+    c["isExc"] = rng.random() < 0.22
     c["preInit"] = rng.random() < 0.25
     c["preInitArgs"] = c["preInit"] and rng.random() < 0.5
     c["postInit"] = rng.random() < 0.25
@@ -238,12 +248,15 @@ def rand_share(rng, p=0.4):
     return {"groups": rng.choice([1, 2, 2, 3]), "prior": prior, "use_prior": rng.random() < 0.7}
 
 
-def herm_case(rng, names, cls=None, poison=None, api=None, fields=None, share="rand"):
+def herm_case(rng, names, cls=None, poison=None, api=None, fields=None, share="rand", cfg_extra=None):
     case = {"kind": "herm", "cls": cls or rand_cls(rng),
             "fields": fields if fields is not None else [rand_field(rng, n) for n in names],
             "poison": poison or rand_poison(rng),
             "cfg": {"api": api or rng.choice(APIS), "order": rng.random() < 0.4,
-                    "share": rand_share(rng) if share == "rand" else share}}
+                    "share": rand_share(rng) if share == "rand" else share,
+                    "excRoot": rng.choice(EXC_ROOTS), "frozenVia": rng.choice(["arg", "arg", "base"])}}
+    if cfg_extra:
+        case["cfg"].update(cfg_extra)
     return normalise(case)
 
 
@@ -278,6 +291,22 @@ def catalogue(rng):
         for api in ("attr.s", "define", "make_class"):
             yield herm_case(rng, None, cls=dict(cls), poison="helpersOnly", api=api, fields=[dict(f) for f in fs],
                             share={"groups": 2, "prior": ["rot"], "use_prior": True})
+    for root in EXC_ROOTS:
+        for api in ("attr.s", "define", "make_class"):
+            for frozen in (False, True):
+                fs = [mk_field("x", validator=True), mk_field("y", dflt="value", conv="plain"),
+                      mk_field("z", dflt="factorySelf", kwOnly=True)]
+                yield herm_case(rng, None, cls=dict(CLS0, isExc=True, frozen=frozen, slots=api == "define",
+                                                    genInit=not (frozen and api == "attr.s")),
+                                poison="all", api=api, fields=fs, share=None,
+                                cfg_extra={"excRoot": root, "frozenVia": "base" if frozen and api != "make_class" else "arg"})
+    for via in ("arg", "base"):
+        for api in ("attr.s", "define", "make_class"):
+            for slots in (False, True):
+                fs = [mk_field("x", conv="both", eqKey=True), mk_field("y", dflt="factory", repr="custom"),
+                      mk_field("z", dflt="value", init=False, validator=True)]
+                yield herm_case(rng, None, cls=dict(CLS0, frozen=True, slots=slots, genHash=True, cacheHash=True),
+                                poison="all", api=api, fields=fs, share=None, cfg_extra={"frozenVia": via})
     for osa, api in (("hook", "attr.s"), ("noop", "attr.s"), ("dflt", "define"), ("noop", "define"), ("hook", "make_class")):
         fs = [mk_field("x", validator=True, onSetattr="hook"), mk_field("y", conv="plain"), mk_field("z", onSetattr="noop")]
         yield herm_case(rng, None, cls=dict(CLS0, clsOnSetattr=osa), poison="helpersOnly", api=api, fields=fs)
@@ -535,6 +564,7 @@ def dist(case, obs):
                 ("fac", f["dflt"] in ("factory", "factorySelf")), ("conv", f["conv"] != "none"), ("val", f["validator"]),
                 ("key", f["eqKey"]), ("repr", f["repr"] == "custom")) if on})) or "-",
             "explicit_alias": any(f.get("explicitAlias") for f in fs),
+            "exc_root": case["cfg"].get("excRoot", "-"), "frozen_via": case["cfg"].get("frozenVia", "-"),
             "share": ("g%d:%s" % (case["cfg"]["share"]["groups"], "+".join(case["cfg"]["share"]["prior"]) or "within")
                       if case["cfg"].get("share") else "-"),
             "sharedOk": obs.get("sharedOk") if isinstance(obs, dict) else "?",
@@ -557,6 +587,11 @@ def shrink(case):
                 yield normalise(_copy(dict(case, cls=dict(case["cls"], **{k: v}))))
         if case["cfg"]["api"] != "attr.s":
             yield normalise(_copy(dict(case, cfg=dict(case["cfg"], api="attr.s"))))
+        if case["cfg"].get("excRoot", "Exception") != "Exception":
+            yield _copy(dict(case, cfg=dict(case["cfg"], excRoot=case["cfg"]["excRoot"].split(":")[-1]
+                                            if ":" in case["cfg"]["excRoot"] else "Exception")))
+        if case["cfg"].get("frozenVia") == "base":
+            yield _copy(dict(case, cfg=dict(case["cfg"], frozenVia="arg")))
         for i, f in enumerate(fs):
             for k, v in FIELD0.items():
                 if f[k] != v:
@@ -601,6 +636,9 @@ def neighbours(case, rng):
             yield normalise(_copy(dict(case, cls=dict(case["cls"], **{k: not case["cls"][k]}))))
         for prior in (["rot"], ["fresh"], ["rev"]):
             yield _copy(dict(case, cfg=dict(case["cfg"], share={"groups": 2, "prior": prior, "use_prior": True})))
+        if case["cls"]["isExc"]:
+            for root in EXC_ROOTS:
+                yield _copy(dict(case, cfg=dict(case["cfg"], excRoot=root)))
         yield from shrink(case)
     else:
         n = len(case["defs"])
